@@ -102,6 +102,7 @@ def run_case(ctx, gd, q, doms):
 
 
 def run_shard(ctx):
+    gg.ALLOW_PREFIXED = False  # a name T_x is a selection node for the transport algorithms
     mon_trso.install(semantic=True, K={"quick": 2, "thorough": 3}[ctx.tier])
     mon_dsep.install()
     rng = ctx.rng
